@@ -1,7 +1,18 @@
 (* Divergence classes K_* of the fast path (boolean predicates over the input atom) and the
    agreeing class.  Definitions only (used by the harness to classify and by PyFastFacts.v as the
    guards of the theorems).  A class is decided at the FIRST node (post-order = evaluation order)
-   at which the Python computation can depart from the SMT-LIB value. *)
+   at which the Python computation can depart from the SMT-LIB value.
+   Guards of the theorems:
+     agree_class e               first_class e = 0: no class is met at all.  Guard of the is_valid AND the
+                                 evaluate_atom / evaluate_clo theorems for every fx and every Z3 fall-back
+                                 (PyFastFacts.fast_agrees, PyFastMore.evaluate_atom_agrees).
+     agree_class_fx e            (PyClosure.v) first_class e is 0 or K_noimpl: the first thing met in
+                                 evaluation order is at worst an operator without fast path.  With the repaired
+                                 fall-through (fx = true) py_eval then ends in Failure and the atom goes to Z3;
+                                 guard of PyFastMore.fast_agrees_fx under the premise z3_sound.  For evaluate()
+                                 the guard is taken on [ground e], the atom the fall-back judges
+                                 (first_class (ground e) is first_class e or K_lit_enc:
+                                 PyFastMore.first_class_ground). *)
 From Coq Require Import List NArith ZArith Bool.
 From ISLA Require Import Str Outcome Regex SmtAst SmtSem PyRe PyFast.
 Import ListNotations.
